@@ -66,6 +66,26 @@ CHECKS = {
    technique='deterministic simulation of the staging buffer: (1) seeded call-interleaving simulator over the public API with the real primitives and a fault-injecting destination, (2) shuttle random/PCT schedules over the same source file compiled against shuttle Mutex/Condvar (producer and consumer threads, deadlock detection, replayable schedules)',
    text='Destination bytes must be exactly the written stream, once, in order, wherever the redirect lands (before the first byte, mid-stream, after the last, never), in-memory and temp-file staging; len() equals bytes written; waiting returns once the producer is done (shuttle reports a lost wake-up as deadlock).',
    note='AtomicCell is modelled by a shuttle mutex (linearizable swap with a scheduling point); temp files are real'),
+ 'C15': dict(engine='clisim', cat='exploration', ref='DESIGN.md §4 C15',
+   technique='seeded simulation of the merge tool (in-process, -t 1 on its current_thread runtime: 1-5 reader instances + merge + clip/adjust/threshold + the concurrent write pipeline) and of the merge/fill iterator adapters with error items injected into an input stream; oracle = per-base sum by an independent sweep',
+   text='Tool: the per-base sum of the input models (from base 0, across the 50,000-base work windows, with cancelling values, explicit zeros, chromosomes missing from some inputs), clipped, adjusted and thresholded as documented, must equal the per-base expansion of the output for the documented output names (.bw, .bigWig, .bedGraph, --output-type). Library: merge output sorted, disjoint, zero-free and per-base equal to the sum; an Err item is propagated and nothing is emitted after it; fill/fill_start_to_end are gapless, keep every original and add only zeros.',
+   note='merge_sections_many/fill are pure adapters: for them this is seeded generation plus error-item injection, labelled so; values are exact binary fractions so that summation order cannot matter'),
+ 'C16': dict(engine='clisim', cat='exploration', ref='DESIGN.md §4 C16',
+   technique='deterministic simulation of the four converters called in-process through their public entry functions with clap-parsed native and UCSC-style argument vectors; -t 1 natively, -t N on the simulator\'s current_thread runtime via the cfg-gated runtime override under seeded yield decisions',
+   text='bedGraph->bigWig->bedGraph and BED->bigBed->BED must return the original records in order (values equal as f32, extra columns identical) for every thread count, --parallel mode, pass mode, buffering mode, block/slot/zoom options and flag spelling; --chrom/--start/--end output must equal the range-query oracle.',
+   note='real OS-thread runtimes are replaced by the simulator\'s runtime (that is the point of the override); the multicall binary dispatch is not exercised in-process'),
+ 'C17': dict(engine='clisim', cat='exploration', ref='DESIGN.md §4 C17',
+   technique='seeded simulation: stats_for_bed_item / bigwig_average_over_bed through the cached reader on SimRead with short reads/EINTR (query history = region list); the tool in-process with -t 1 (deterministic) and -t N (real std::thread pool, uncontrolled, schedule-independent oracle)',
+   text='Per region: size, covered bases, sum, mean0, mean, min, max, NaN conventions, one row per input row in order with the requested name column, from an independent clip-and-sum oracle; -t N output must equal -t 1 output byte for byte; bigwigvaluesoverbed per-base values with 0 where no data.',
+   note='the -t N path uses std::thread::spawn workers whose schedule cannot be owned without rewriting the tool; those runs are labelled uncontrolled and are not the deciding step for the statistics'),
+ 'C18': dict(engine='textsim', cat='exploration', ref='DESIGN.md §4 C18',
+   technique='seeded simulation over FileView operation histories (read/seek Start|Current|End, windows not at file start / past EOF) against a clamped-cursor reference model; index_chroms and split_file_into_chunks_by_size on seeded files (run lengths x line-length patterns incl. very long lines and multi-byte text x final newline) against a linear scan',
+   text='After every FileView operation: same return value, same bytes, no panic. Grouped files: index equals the linear scan exactly; non-grouped: None or only true line starts. Chunks: cut only at line starts and cover the file exactly once for chunk counts 1..lines+2.',
+   note='index/chunking are pure functions of the file bytes (no schedule or fault dimension) - evaluated on the same engine and labelled so; the consequence for the parallel path is checked by C11 (serial vs parallel source byte equality)'),
+ 'C19': dict(engine='textsim+clisim', cat='exploration', ref='DESIGN.md §4 C19',
+   technique='seeded simulation of bedtobigbed in-process (0-40 extra columns, with/without a generated schema, all thread/pass modes) for the stored schema and field count; parser totality by feeding generated schemas, all their truncations, single-token mutations and blocks of the enumeration of short delimiter strings to parse_autosql inside worker processes with a 1 GiB address-space cap and a stall watchdog',
+   text='Generated schema declares 3+n fields and the header field count equals it; supplied schemas are stored verbatim with their declared field count; every schema bed_autosql emits parses; the parser returns Ok or Err on every input - a panic, a watchdog kill or an allocation abort is the violation, attributed to the batch in progress and minimised by the driver.',
+   note='parser totality has no schedule dimension; its only fault is resource exhaustion (F9)'),
 }
 
 checks = []
@@ -109,6 +129,8 @@ manifest = {
     'kind_free_text': 'real bigtools write pipeline on a simulator-owned current_thread tokio runtime with seeded yield decisions at cfg-gated hook sites; SimSink/SimRead/SimSource seams; worker processes with watchdog'},
    {'name': 'readsim', 'path': 'sim/src/readsim.rs', 'serves_properties': [p for p in ['C03','C04','C05','C10'] if p in CHECKS],
     'kind_free_text': 'real bigtools readers living through seeded query histories on SimRead (short reads, EINTR, reopen); files from bigtools itself or from the independent encoder (sim/src/encode.rs)'},
+   {'name': 'clisim', 'path': 'sim/src/clisim.rs + sim/src/textsim.rs', 'serves_properties': [p for p in ['C15','C16','C17','C18','C19'] if p in CHECKS],
+    'kind_free_text': 'command-line tools called in-process through their public entry functions (runtime override + seeded yields for -t N), FileView history simulator, autoSql parser under address-space cap and watchdog'},
    {'name': 'tfbsim', 'path': 'sim/src/tfbsim.rs + tfbshuttle/', 'serves_properties': [p for p in ['C12'] if p in CHECKS],
     'kind_free_text': 'the real tempfilebuffer.rs under a call-interleaving simulator and under shuttle schedulers (separate crate including the source file via #[path])'},
  ],
